@@ -119,6 +119,7 @@ impl Meta {
 //@| requires page_id.0 < 65536
 //@| ensures r is Ok ==> (page_id.0 + 1) * 8192 <= file_bytes(file).len()
 //@|             && final(buf)@ == file_bytes(file).subrange(page_id.0 * 8192, page_id.0 * 8192 + 8192),
+//@|     r is Err ==> r->Err_0 is Io,
 //@prewrite "read_exact_at(file, offset, buf).map_err(Error::Io)?;" => "v_read_exact_at(file, offset, buf)?;"
 //@end
 
@@ -138,7 +139,7 @@ impl Meta {
 impl Pager {
 
 //@extract nervusdb-storage/src/pager.rs Pager::validate_data_page_id ret r
-//@| ensures r is Ok <==> 2 <= page_id.0 < 65536
+//@| ensures r is Ok <==> 2 <= page_id.0 < 65536, r is Err ==> r->Err_0 is PageIdOutOfRange
 //@end
 
 //@extract nervusdb-storage/src/pager.rs Pager::flush_meta_and_bitmap ret r
@@ -186,6 +187,7 @@ impl Pager {
 //@extract nervusdb-storage/src/pager.rs Pager::read_page ret r
 //@| ensures r is Ok ==> 2 <= page_id.0 < 65536 && self.alloc(page_id.0 as int) && (page_id.0 + 1) * 8192 <= self.bytes().len()
 //@|     && r->Ok_0@ == self.bytes().subrange(page_id.0 * 8192, page_id.0 * 8192 + 8192),
+//@|     r is Err ==> r->Err_0 is Io || r->Err_0 is PageIdOutOfRange || r->Err_0 is PageNotAllocated,
 //@end
 
 //@extract nervusdb-storage/src/pager.rs Pager::write_page ret r
@@ -417,6 +419,10 @@ impl IdMap {
 //@prewrite "self.e2i.insert(external_id, internal_id);" => "v_e2i_insert(&mut self.e2i, external_id, internal_id);"
 //@end
 }
+
+//@canary|pub proof fn canary_wf(p: Pager) requires p.wf(), p.alloc(5), !p.alloc(6), p.next() == 9 ensures false {}
+//@canary|pub proof fn canary_frame(a: Pager, b: Pager) requires frame_ok(a, b, ISet::<int>::empty()), a.alloc(7), b.alloc(8), !a.alloc(8), a.bytes().len() == 81920 ensures false {}
+//@canary|pub proof fn canary_i2e_room(p: Pager, start: int) requires p.wf(), 2 <= start < 65536, !p.alloc(start + 1), p.alloc(start) ensures false {}
 
 } // verus!
 fn main() {}
